@@ -77,7 +77,7 @@ def scenarios(run):
     # probes
     add("probe-torn-put", 1, [1], {"kind": "torn_put", "game": 0}, payload=16_000_000, probe="torn-put")
     add("probe-dead-lock-holder", 2, [1], {"kind": "none"}, hold={"worker": None, "game": 0},
-        ext_kill={"when": "idle"}, stop_timeout=1.5, probe="dead-lock-holder")
+        ext_kill={"when": "idle"}, stop_timeout=1.5, probe="dead-lock-holder", sims=1, ply_limit=0)
     add("probe-sysexit0", 1, [2], {"kind": "eval_sysexit0", "k": 1}, bound=min(BOUND, 8), probe="sysexit0")
     if not run.quick:
         kinds = ["none", "factory_raise", "eval_raise", "eval_exit", "eval_sigkill"]
@@ -478,6 +478,17 @@ def oracle(obs):
     return out
 
 
+def probe_reproduced(obs):
+    """did a probe scenario reach the situation it is meant to create?"""
+    probe = obs["scenario"].get("probe")
+    r0 = obs["requests"][0] if obs.get("requests") else {}
+    if probe == "torn-put":
+        return r0.get("outcome") == "hung" and bool(r0.get("stuck_in_get"))
+    if probe == "dead-lock-holder":
+        return r0.get("outcome") == "returned" and any(e.get("ev") == "extkill" for e in obs.get("wlog", []))
+    return True
+
+
 def brief(obs):
     return {"scenario": obs["scenario"],
             "requests": [{k: v for k, v in r.items() if k not in ("trace",)} | {"trace_len": len(r["trace"])} for r in obs.get("requests", [])],
@@ -500,6 +511,17 @@ def correspondence(run):
     scs = scenarios(run)
     t0 = time.time()
     obs_all = run_scenarios(scs)
+    # the two probes need a precise timing; try again (twice at most) when it was missed
+    retried = {}
+    for attempt in range(2):
+        missed = [i for i, o in enumerate(obs_all) if "driver_error" not in o and not probe_reproduced(o)]
+        if not missed:
+            break
+        again = run_scenarios([obs_all[i]["scenario"] for i in missed], par=2)
+        for i, o in zip(missed, again):
+            retried[obs_all[i]["scenario"]["name"]] = attempt + 1
+            if "driver_error" not in o:
+                obs_all[i] = o
     errs = [o for o in obs_all if "driver_error" in o]
     run.oblige("correspondence:drivers ran", not errs, json.dumps(errs, default=str)[:3000])
     obs_ok = [o for o in obs_all if "driver_error" not in o]
@@ -553,6 +575,8 @@ def correspondence(run):
                                     "mechanism": "worker SIGKILLed while its feeder thread is writing a transcript larger than the pipe buffer; "
                                                  "the parent's games.get(timeout=1) passes poll() and blocks for ever in recv_bytes"})
     run.extra["torn_put_probe_reproduced"] = torn_seen
+    run.extra["probes"] = {o["scenario"]["name"]: {"reproduced": probe_reproduced(o), "extra_attempts": retried.get(o["scenario"]["name"], 0)}
+                           for o in obs_ok if o["scenario"].get("probe") in ("torn-put", "dead-lock-holder")}
     run.extra["evidence_only"] = {
         "sysexit0": [brief(o)["requests"] for o in obs_ok if o["scenario"].get("probe") == "sysexit0"],
         "stop_raised_queue_full_after_play_many_raised": [o["scenario"]["name"] for o in obs_ok
